@@ -43,6 +43,16 @@ theorem view_refines_partial (cfg : Cfg) (hv : cfg.valid = true) (acts : List Ac
       (run (Srv.init cfg) (Bot.init cfg.botNick cfg.botIdent) acts).2 :=
   run_inv acts _ _ (wf_init cfg hv) (coupled_init cfg hv) hok
 
+/-- **view_refines with batches** — the same for a server that negotiated `batch` and wraps what it sends
+into IRCv3 batches (`BATCH +ref type …`, every following message tagged `batch=ref`, `BATCH -ref`; a netsplit or
+netjoin is such a run of QUITs / JOINs): the bot (now with `irc.state.batches`) stays coupled, and the batch
+the server is sending is always one the bot has open, so no tagged message is dropped. -/
+theorem view_refines_batched_partial (cfg : Cfg) (hv : cfg.valid = true) (acts : List BAct) (hok : ∀ a ∈ acts, a.ok) :
+    BInv (runB (Srv.init cfg) ⟨Bot.init cfg.botNick cfg.botIdent, []⟩ none acts).1
+      (runB (Srv.init cfg) ⟨Bot.init cfg.botNick cfg.botIdent, []⟩ none acts).2.1
+      (runB (Srv.init cfg) ⟨Bot.init cfg.botNick cfg.botIdent, []⟩ none acts).2.2 :=
+  runB_inv acts _ _ _ ⟨wf_init cfg hv, coupled_init cfg hv, fun _ h => by cases h⟩ hok
+
 /-- one more step from any reachable pair of states (the inductive step, usable on its own) -/
 theorem view_step (s : Srv) (b : Bot) (hw : SrvWF s) (hc : Coupled s b) (a : Act) (ha : a.ok) :
     SrvWF (s.step a).1 ∧ Coupled (s.step a).1 (b.recvAll (s.step a).2) :=
